@@ -54,6 +54,16 @@ def exc_name(e):
     return type(e).__name__
 
 
+# Behaviours at the edge of the property that are NOT counted as violations unless the coordinator lists them
+# in known_findings.json under these ids (then they are searched for, classified and reported as KNOWN-FINDING):
+KF_SCOPE = 'C15-scope-bracket'        # IPv6 host whose %scope contains ']': escape_ipv6 accepts, parse_host_port raises
+KF_LONGPREFIX = 'C15-prefix-over-64'  # prefix longer than /64 with non-zero low 64 bits: MAC not recoverable
+
+
+def listed_ids():
+    return {f.get('id') for f in common.load_findings().get('findings', []) if ID in f.get('properties', [])}
+
+
 # --------------------------------------------------------------------------
 # JSON-able encoding of odd Python values used in the malformed streams
 
@@ -622,7 +632,7 @@ def iid_bytes(mac_int):
     return bytes([b[0] ^ 0x02, b[1], b[2], 0xff, 0xfe, b[3], b[4], b[5]])
 
 
-def oracle_eui(prefix_text, mac_int, mac_arg):
+def oracle_eui(prefix_text, mac_int, mac_arg, strict_long=False):
     """prefix_text is a well-formed IPv6 network text, mac_arg a rendering of the 48-bit mac_int."""
     n = _n()
     net = ipaddress.IPv6Network(prefix_text, strict=False)
@@ -662,6 +672,10 @@ def oracle_eui(prefix_text, mac_int, mac_arg):
         return 'raised %s for a well-formed prefix and MAC' % exc_name(a)
     if int(a) != want:
         return 'address %s, expected %s' % (a, ipaddress.IPv6Address(want))
+    if strict_long:
+        back = int(n.get_mac_addr_by_ipv6(a))
+        if back != mac_int:
+            return 'prefix longer than /64: get_mac_addr_by_ipv6(%s) = %012x, MAC was %012x' % (a, back, mac_int)
     return None
 
 
@@ -788,6 +802,10 @@ def run_oracle(case):
                 pass
             return oracle_eui_error(p, m)
         return oracle_eui(p, mi, m)
+    if k == 'eui-long-prefix':
+        return oracle_eui(case['prefix'], case['mac_int'], dec(case['mac']), strict_long=True)
+    if k == 'hostport-scope-bracket':
+        return oracle_hostport(case['host'], case['port'], case['default'])
     if k == 'eui-error':
         return oracle_eui_error(dec(case['prefix']), dec(case['mac']))
     if k == 'macof':
@@ -870,11 +888,58 @@ def search(ctx, seeds, full=False):
         for p in range(65536):
             ctx.count('search/hostport/allports')
             check({'kind': 'hostport', 'host': pool[p % len(pool)], 'port': p, 'default': None})
+    # --- listed findings only: their classes are exercised so that they stay visible ---
+    listed = listed_ids()
+    if KF_SCOPE in listed:
+        for sc in [']', 'a]b', 'eth0]']:
+            check({'kind': 'hostport-scope-bracket', 'host': 'fe80::1%' + sc, 'port': 80, 'default': None})
+    if KF_LONGPREFIX in listed:
+        for pt, mv in [('::1', 0), ('2001:db8::1:0:0:1/96', 0x00163e334455)]:
+            check({'kind': 'eui-long-prefix', 'prefix': pt, 'mac': mac_render(mv, 'colon'), 'mac_int': mv})
     # --- URLs ---
     for (u, sch, af, tag) in url_cases(ctx) if (full or not ctx.quick) else itertools.islice(url_cases(ctx), 2000):
         ctx.count('search/url/' + tag)
         check({'kind': 'url', 'url': u, 'scheme': sch, 'allow_fragments': af})
     return fails
+
+
+def in_scope_bracket_class(host):
+    addr, pct, scope = host.rpartition('%')
+    return bool(pct) and ']' in scope and _n().is_valid_ipv6(host)
+
+
+def in_long_prefix_class(prefix):
+    try:
+        net = ipaddress.IPv6Network(prefix, strict=False)
+    except ValueError:
+        return False
+    return net.prefixlen > 64 and int(net.network_address) & ((1 << 64) - 1) != 0
+
+
+def classify(ctx, failure, listed_findings):
+    ids = {f.get('id') for f in listed_findings}
+    case = failure.case
+    k = case.get('kind')
+    if KF_SCOPE in ids and k in ('hostport', 'hostport-scope-bracket') and in_scope_bracket_class(case['host']):
+        return KF_SCOPE
+    if KF_LONGPREFIX in ids and k == 'eui-long-prefix' and in_long_prefix_class(case['prefix']) \
+            and str(failure.detail.get('what', '')).startswith('prefix longer than /64'):
+        return KF_LONGPREFIX
+    return None
+
+
+def witness_reproduces(ctx, finding):
+    n = _n()
+    if finding.get('id') == KF_SCOPE:
+        try:
+            n.parse_host_port(n.escape_ipv6('fe80::1%]') + ':80')
+        except ValueError:
+            return True
+        return False
+    if finding.get('id') == KF_LONGPREFIX:
+        a = n.get_ipv6_addr_by_EUI64('::1', '00:00:00:00:00:00')
+        return int(n.get_mac_addr_by_ipv6(a)) != 0
+    return False
 
 
 def shrink(case):
@@ -919,9 +984,19 @@ def shrink(case):
     return case
 
 
+def pretty(reply):
+    """decode the hex fields of a php/esc reply for display"""
+    parts = reply.split(' ')
+    if parts[0] == 'ok' and len(parts) == 3:
+        return '(%r, %s)' % (None if parts[1] == 'N' else common.unhexs(parts[1]), 'None' if parts[2] == 'N' else parts[2])
+    if parts[0] in ('0', '1') and len(parts) == 2:
+        return 'is_valid_ipv6=%s escape_ipv6=%r' % (parts[0], common.unhexs(parts[1]))
+    return reply
+
+
 def model_line(case):
     k = case.get('kind')
-    if k in ('eui', 'eui-error'):
+    if k in ('eui', 'eui-error', 'eui-long-prefix'):
         p, m = dec(case['prefix']), dec(case['mac'])
         return req('eui', *(classify_prefix(p) + classify_mac(m)))
     if k == 'macof':
@@ -933,7 +1008,7 @@ def model_line(case):
         return req('esc', hexs(case['host']))
     if k == 'hostport-raw':
         return req('php', hexs(case['host']), dflt_field(case['default']))
-    if k == 'hostport':
+    if k in ('hostport', 'hostport-scope-bracket'):
         n = _n()
         e = n.escape_ipv6(case['host'])
         a = e if case['port'] is None else e + ':' + str(case['port'])
@@ -950,26 +1025,27 @@ def replay(ctx, payload):
     n = _n()
     k = case.get('kind')
     print('case:', case)
-    if k in ('eui', 'eui-error'):
+    if k in ('eui', 'eui-error', 'eui-long-prefix'):
         p, m = dec(case['prefix']), dec(case['mac'])
         impl, a = impl_eui(p, m)
         print('implementation: get_ipv6_addr_by_EUI64(%r, %r) -> %s' % (p, m, a if a is not None else impl))
         if a is not None:
-            print('implementation: get_mac_addr_by_ipv6(%s) -> %s' % (a, impl_macof(a)))
+            r = impl_macof(a)
+            print('implementation: get_mac_addr_by_ipv6(%s) -> %s' % (a, '%012x' % int(r) if r.isdigit() else r))
     elif k == 'macof':
         import netaddr
         print('implementation:', impl_macof(netaddr.IPAddress(case['value'], case['version'])))
     elif k == 'php':
-        print('implementation:', impl_php(case['address'], case['default']))
+        print('implementation:', pretty(impl_php(case['address'], case['default'])))
     elif k == 'esc':
-        print('implementation:', impl_esc(case['host']))
+        print('implementation:', pretty(impl_esc(case['host'])))
     elif k == 'hostport-raw':
         print('implementation: parse_host_port(%r, default_port=%r) -> %s' % (
-            case['host'], case['default'], impl_php(case['host'], case['default'])))
-    elif k == 'hostport':
+            case['host'], case['default'], pretty(impl_php(case['host'], case['default']))))
+    elif k in ('hostport', 'hostport-scope-bracket'):
         e = n.escape_ipv6(case['host'])
         a = e if case['port'] is None else e + ':' + str(case['port'])
-        print('implementation: parse_host_port(%r, default_port=%r) -> %s' % (a, case['default'], impl_php(a, case['default'])))
+        print('implementation: parse_host_port(%r, default_port=%r) -> %s' % (a, case['default'], pretty(impl_php(a, case['default']))))
     elif k in ('url', 'params'):
         for name, f in (('netutils.urlsplit', n.urlsplit), ('urllib.parse.urlsplit', parse.urlsplit)):
             try:
@@ -982,7 +1058,20 @@ def replay(ctx, payload):
                 print('%s: raised %s' % (name, exc_name(e)))
     line = model_line(case)
     if line:
-        print('model         :', ctx.driver.ask(line))
+        print('model         :', pretty(ctx.driver.ask(line)))
+    elif k in ('url', 'params'):
+        try:
+            std = five(parse.urlsplit(case['url'], case['scheme'], case['allow_fragments']))
+            rep = ctx.driver.ask(req('url', 1 if case['allow_fragments'] else 0, *[hexs(x) for x in std]))
+            print('model (fix-ups applied to the stdlib result):', [common.unhexs(x) for x in rep.split(' ')])
+            qsl = parse.parse_qsl(std[3])
+            pairs = ','.join('%s=%s' % (hexs(a), hexs(b)) for a, b in qsl) or '-'
+            for collapse in (1, 0):
+                print('model params(collapse=%d):' % collapse, ctx.driver.ask(req('params', hexs(std[3]), collapse, pairs)),
+                      ' implementation:', show_params(n.urlsplit(case['url'], case['scheme'],
+                                                                 case['allow_fragments']).params(collapse=bool(collapse))))
+        except Exception as e:
+            print('model: not applicable (urllib.parse.urlsplit raised %s)' % exc_name(e))
     why = run_oracle(case)
     print('property oracle on the implementation:', why)
     return 1 if why else 0
